@@ -233,11 +233,12 @@ func (m *model) finish(e *expect, port []int, services []simdoh.RR, addrName, no
 		e.addErr(sa)
 		e.addErr(sb)
 	case sa != stOK:
+		// a failed address lookup of the origin is an error of the call, whatever
+		// the other family says (the statement maps error codes to errors; a
+		// result that silently lacks a family would hide the failure)
 		e.addErr(sa)
-		alts = append(alts, alt{addrsOf(b)})
 	default:
 		e.addErr(sb)
-		alts = append(alts, alt{addrsOf(a)})
 	}
 	// service targets
 	type tgtAlt struct{ lines []string }
